@@ -17,6 +17,19 @@ fn posrelat(pos: i64, len: usize) -> i64 {
 }
 
 impl<'c> Interp<'c> {
+    /// one match attempt at `s1`; matcher work is charged to the step budget (1 step per 16 matcher ops)
+    fn try_match(&mut self, ms: &mut MatchState, s1: usize, line: u32) -> R<Option<usize>> {
+        ms.reset();
+        ms.ops = 0;
+        ms.max_ops = self.max_steps.saturating_sub(self.steps).saturating_add(1).saturating_mul(16);
+        let r = ms.do_match(s1, 0);
+        self.steps += 1 + ms.ops / 16;
+        match r {
+            Ok(r) => Ok(r),
+            Err(m) if m == BUDGET_MARK => budget("steps"),
+            Err(m) => self.lib_error(line, m),
+        }
+    }
     fn cap_value(&mut self, ms: &MatchState, i: usize, s: usize, e: usize, line: u32) -> R<Value> {
         match ms.get_capture(i, s, e) {
             Ok(Cap::Str(a, b)) => Ok(self.new_str(&ms.src[a..b])),
@@ -54,12 +67,7 @@ impl<'c> Interp<'c> {
         let mut ms = MatchState::new(&s, pat);
         let mut s1 = init;
         loop {
-            ms.reset();
-            self.steps += 1;
-            let r = match ms.do_match(s1, 0) {
-                Ok(r) => r,
-                Err(m) => return self.lib_error(line, m),
-            };
+            let r = self.try_match(&mut ms, s1, line)?;
             if let Some(e) = r {
                 if find {
                     let mut out = vec![Value::Int(s1 as i64 + 1), Value::Int(e as i64)];
@@ -84,12 +92,7 @@ impl<'c> Interp<'c> {
         let mut ms = MatchState::new(&src, &pat);
         let mut s1 = start;
         while s1 <= src.len() {
-            ms.reset();
-            self.steps += 1;
-            let r = match ms.do_match(s1, 0) {
-                Ok(r) => r,
-                Err(m) => return self.lib_error(line, m),
-            };
+            let r = self.try_match(&mut ms, s1, line)?;
             if let Some(e) = r {
                 if Some(e) != last {
                     if let Some(g) = self.gmatch.get_mut(payload as usize) {
@@ -126,12 +129,8 @@ impl<'c> Interp<'c> {
         let mut out: Vec<u8> = Vec::new();
         let (mut src, mut n, mut last) = (0usize, 0i64, None);
         while n < max_s {
-            ms.reset();
             self.step()?;
-            let r = match ms.do_match(src, 0) {
-                Ok(r) => r,
-                Err(m) => return self.lib_error(line, m),
-            };
+            let r = self.try_match(&mut ms, src, line)?;
             match r {
                 Some(e) if Some(e) != last => {
                     n += 1;
